@@ -194,6 +194,8 @@ def evaluate(case):
         schema, _ = loadcheck.load_schema(ast)
     except Exception:
         return []
+    if "texts" in case:
+        return [failure(sig, case, d) for sig, d in check_sequence(schema, case["texts"], all_handler_names(ast))]
     _, fl = compare(ast, sm, schema, case["text"])
     return [failure(sig, case, d) for sig, d in (fl or [])]
 
@@ -208,6 +210,60 @@ def levels(ref):
     return ref.stats["nested"] + 1
 
 
+def all_handler_names(ast):
+    names = set()
+    if ast.get("handler"):
+        names.add(ast["handler"].lower())
+    for cont in [ast] + ast["types"]:
+        for it in cont["items"]:
+            if it.get("handler"):
+                names.add(it["handler"].lower())
+    return names
+
+
+def _calls_of(handler, names):
+    """-> (len, [(name, id(value)) ...]) obtained by calling the handler with a map that has
+    every handler name of the schema."""
+    calls = []
+
+    def rec(nm):
+        return lambda value: calls.append((nm, id(value)))
+    try:
+        n = len(handler)
+        handler({nm: rec(nm) for nm in names})
+    except Exception as e:  # noqa
+        return ("raises", repr(e))
+    return (n, calls)
+
+
+def check_sequence(schema, texts, names):
+    """One ConfigLoader object serves several loads: the handler returned with an earlier
+    configuration keeps describing THAT configuration (its entries, their number, the very
+    value objects) whatever the loader is used for afterwards."""
+    ZConfig = loadcheck.zc()
+    import ZConfig.loader
+    out = []
+    ld = ZConfig.loader.ConfigLoader(schema)
+    earlier = []
+    for text in texts:
+        got = loadcheck.real_load_with(ld, text, loadcheck.MAIN)
+        for h, before, t0 in earlier:
+            now = _calls_of(h, names)
+            if now != before:
+                out.append(("earlier-handler-changed-by-a-later-load", "handler of %r: %r, then %r" % (t0[:80], before, now)))
+                break
+        if out:
+            break
+        if got[0] == "ok":
+            earlier.append((got[2], _calls_of(got[2], names), text))
+            _KEEP.append(got[1])      # keep the configuration alive so that id() values stay meaningful
+    del _KEEP[:]
+    return out
+
+
+_KEEP = []
+
+
 def run_shard(spec):
     res = Result()
     counters = collections.Counter()
@@ -218,6 +274,9 @@ def run_shard(spec):
         except Exception:  # noqa
             counters["schema-rejected"] += 1
             continue
+        res.evaluations += 1
+        for sig, d in check_sequence(schema, texts, all_handler_names(ast)):
+            res.fail(sig, {"schema": ast, "texts": texts}, d)
         for text in texts:
             ref, fl = compare(ast, sm, schema, text)
             if ref.kind != "accept" or fl is None:
